@@ -65,13 +65,22 @@ def build_overlay(check_id, pkgdir, harness_dir, transforms=(), moddir="", commo
     # source transforms: (relative file, regex, replacement, min_matches)
     transformed = []
     for (rel, pat, repl, minm) in transforms:
-        src = os.path.join(REPO, moddir, rel) if moddir else os.path.join(REPO, rel)
+        if rel.startswith("mod:"):
+            # a file of a dependency: "mod:<module path>:<file relative to the module root>"
+            _, modpath, mrel = rel.split(":", 2)
+            q = subprocess.run(["go", "list", "-m", "-f", "{{.Dir}}", modpath], cwd=os.path.join(REPO, moddir) if moddir else REPO,
+                               env=env_go(), capture_output=True, text=True)
+            if q.returncode != 0 or not q.stdout.strip():
+                raise RuntimeError("cannot locate module %s: %s" % (modpath, q.stderr[-300:]))
+            src = os.path.join(q.stdout.strip(), mrel)
+        else:
+            src = os.path.join(REPO, moddir, rel) if moddir else os.path.join(REPO, rel)
         real = ov.get(src)
         s = open(real or src).read()
         s2, n = re.subn(pat, repl, s)
         if n < minm:
             raise RuntimeError("transform %r matched %d < %d times in %s" % (pat, n, minm, rel))
-        realp = os.path.join(work, "xf__" + rel.replace("/", "__"))
+        realp = os.path.join(work, "xf__" + rel.replace("/", "__").replace(":", "__"))
         open(realp, "w").write(s2)
         ov[src] = realp
         transformed.append(rel)
